@@ -34,10 +34,22 @@ RANGE = {
 MAGBITS = {'u8': 8, 's8': 7, 'u16': 16, 's16': 15, 'u32': 32, 's32': 31, 'u64': 64, 's64': 63}
 RMS = ('RNE', 'RTZ', 'RTP', 'RTN')
 
-# Known findings excluded by construction (each counted through an 'excluded:...' feature tag).  Empty: every defect
-# found so far has a proposed fix under /verif/proposed_fixes/C11_*.diff.  Add 'iter-elim-body-writes' to stop generating
-# writes into a list while a zip/enumerate loop over it runs (needed on a tree without C11_iter_elim_body_writes.diff).
-EXCLUDE_KNOWN: set = set()
+# Open known findings of the backend whose triggers are excluded BY CONSTRUCTION (every suppressed production is counted
+# in Gen.excluded and reported by the check as counters `excluded:<name>`):
+#   float-to-int-range   known/float-to-int-out-of-range-cast: a float is rounded into a SINTn/UINTn context only when it is a
+#                        variable clamped (in a binary64 block, by a conditional expression) to the target's range
+#   fp32-literal         known/fp32-dyadic-literal-promotes-to-double: under a binary32 context no non-integer literal that
+#                        binary32 holds exactly (also not inside fp.round: optimize=True removes an identity round); other
+#                        non-integer literals only as fp.round(<literal>), folded to a float-typed constant
+#   small-int-ops        known/small-int-operator-table: no arithmetic operator / abs / min / max (and no while counter,
+#                        comprehension or list-literal arithmetic) under 8- and 16-bit integer contexts, no abs under
+#                        UINT32/UINT64, integer min/max only over values that already have exactly the context's format,
+#                        exact (REAL / INTEGER) integer arithmetic only with results wider than 16 bits and no abs/min/max
+#   minmax-then-store    known/list-minmax-after-widening-store: once min(xs)/max(xs) was taken, nothing stores into xs
+#                        (or a list that may share its cells) any more
+#   iter-elim-body-writes  (fixed in the tree; kept switchable) writes into a list a zip/enumerate loop iterates
+EXCLUDE_KNOWN: set = {'float-to-int-range', 'fp32-literal', 'small-int-ops', 'minmax-then-store'}
+NARROW_INTS = ('s8', 'u8', 's16', 'u16')
 CTX_TEXT = {'s8': 'fp.SINT8', 's16': 'fp.SINT16', 's32': 'fp.SINT32', 's64': 'fp.SINT64',
             'u8': 'fp.UINT8', 'u16': 'fp.UINT16', 'u32': 'fp.UINT32', 'u64': 'fp.UINT64',
             'int': 'fp.INTEGER', 'real': 'fp.REAL'}
@@ -117,8 +129,9 @@ class Ctx:
 
 # value types
 class Sc:
-    def __init__(self, kind):
+    def __init__(self, kind, rng=None):
         self.kind = kind
+        self.rng = rng              # (lo, hi): the value is known to be finite and inside this range (clamped copies)
 
     def key(self):
         return ('S', self.kind)
@@ -162,8 +175,11 @@ DYADIC_LITS = ['0', '1', '2', '3', '5', '7', '10', '100', '0.5', '1.5', '0.25', 
 # 2**23 + 0.5 and 2**22 + 0.25 need 25 significand bits: binary64 storage, one bit more than binary32 holds
 # (a decimal literal reaches the backend through its shortest repr, so only short exact decimals are usable)
 INT_LITS = ['0', '1', '2', '3', '5', '7', '10', '100', '255']
-NONDYADIC_LITS = ['0.1', '0.3', '1e-3', '1e10', '3.3', '1e-40', '1e39', '0.7', '1e-320', '1.7976931348623157e308']
-NONDYADIC_F32 = ['0.1', '0.3', '1e-3', '3.3', '1e-40', '1e39', '0.7', '1e-46', '3.4028235e38']
+NONDYADIC_LITS = ['0.1', '0.3', '1e-3', '1e10', '3.3', '0.7', '12345.678', '2.5e-7']
+NONDYADIC_F32 = ['0.1', '0.3', '1e-3', '3.3', '0.7', '12345.678', '2.5e-7']
+# range extremes (overflow to inf / subnormal / largest finite): rare, their one-value formats join badly with everything
+EXTREME_LITS = ['1e-40', '1e39', '1e-320', '1.7976931348623157e308']
+EXTREME_F32 = ['1e-40', '1e39', '1e-46', '3.4028235e38']
 BIG_INT_LITS = ['65535', '65536', '16777216', '2147483647', '4294967295', '1000000']
 
 
@@ -192,6 +208,8 @@ class Fn:
         self.ret_shape = None
         self.frozen_groups = set()  # alias groups of lists being iterated through zip/enumerate (see is_frozen)
         self.frozen_names = set()
+        self.nostore_groups = set() # lists whose min/max was taken: never stored into afterwards (see no_store)
+        self.nostore_names = set()
 
     def fresh(self, prefix):
         self.counter += 1
@@ -202,6 +220,7 @@ class Gen:
     def __init__(self, ch: Chooser, shard=0):
         self.ch = ch
         self.features = set()
+        self.excluded = {}
         self.helpers = []
         self.lines = []
         self.shard = shard
@@ -230,6 +249,42 @@ class Gen:
         return c
 
     # ------------------------------------------------------------------ helpers for env
+    def excl(self, name):
+        self.excluded[name] = self.excluded.get(name, 0) + 1
+
+    def narrow(self, C):
+        """8/16-bit integer context under the small-int exclusion?"""
+        return 'small-int-ops' in EXCLUDE_KNOWN and C.kind in NARROW_INTS
+
+    def no_store(self, fn, name):
+        """May nothing be stored into list `name` any more (its min/max was taken)?  Counts the suppression."""
+        if 'minmax-then-store' not in EXCLUDE_KNOWN:
+            return False
+        g = fn.alias_groups.get(name)
+        if name in fn.nostore_names or (g is not None and g in fn.nostore_groups):
+            self.excl('minmax-then-store')
+            return True
+        return False
+
+    def mark_minmax(self, fn, name):
+        fn.nostore_names.add(name)
+        g = fn.alias_groups.get(name)
+        if g is None:
+            g = fn.next_group
+            fn.next_group += 1
+            fn.alias_groups[name] = g
+        fn.nostore_groups.add(g)
+
+    def int_round_ok(self, fn, v, C):
+        """May scalar variable v be an operand (possibly through fp.round) under integer context C?"""
+        t = fn.env[v]
+        if t.kind not in FLOATLIKE or 'float-to-int-range' not in EXCLUDE_KNOWN:
+            return True
+        if t.rng is None:
+            return False
+        lo, hi = RANGE[C.kind]
+        return lo <= t.rng[0] and t.rng[1] <= hi
+
     def is_frozen(self, fn, name):
         """Known finding (optimize=True): EnumerateElim / ZipElim turn `for i, x in enumerate(xs)` into an indexed loop that
         re-reads `xs[i]` each iteration, where the interpreter (and optimize=False) iterate over the tuples built at loop
@@ -283,8 +338,19 @@ class Gen:
         r = ch.int(0, 99)
         if r < 55:
             t = ch.choice(DYADIC_LITS)
+            if C.kind == 'f32' and 'fp32-literal' in EXCLUDE_KNOWN and '.' in t:
+                self.excl('fp32-literal')
+                if lit_kind(t) == 'f32':
+                    # exactly a binary32 value: fp.round(t) is the identity and optimize=True removes it again, leaving the
+                    # bare double token -- an integer literal instead
+                    t = ch.choice(INT_LITS)
+                    return t, lit_kind(t)
+                return f'fp.round({t})', 'f32'     # a genuine rounding: folded to a float-typed constant
             return t, lit_kind(t)
         if r < 62:
+            if C.kind == 'f32' and 'fp32-literal' in EXCLUDE_KNOWN:
+                self.excl('fp32-literal')           # (fp.round(-0.0) would be eliminated back to the bare token)
+                return '0', 'u8'
             return '-0.0', 'f32'
         if r < 70:
             # an integer literal keeps the storage of its *value* even when rounded, so only those the context holds exactly
@@ -293,7 +359,10 @@ class Gen:
             if fits(k, C.kind):
                 return t, k
             return None
-        t = ch.choice(NONDYADIC_LITS if C.kind == 'f64' else NONDYADIC_F32)
+        if ch.bool(0.12):
+            t = ch.choice(EXTREME_LITS if C.kind == 'f64' else EXTREME_F32)
+        else:
+            t = ch.choice(NONDYADIC_LITS if C.kind == 'f64' else NONDYADIC_F32)
         self.features.add('rounded-literal')
         return f'fp.round({t})', C.kind
 
@@ -302,15 +371,23 @@ class Gen:
         ch = self.ch
         opts = []
         vs = self.scalars(fn)
+        okk = lambda k: True
+        if C.is_int and 'float-to-int-range' in EXCLUDE_KNOWN:
+            # under an integer context every float-valued expression is built from range-clamped variables only
+            n0 = len(vs)
+            vs = [v for v in vs if self.int_round_ok(fn, v, C)]
+            if len(vs) < n0:
+                self.excl('float-to-int-range')
+            okk = lambda k: k not in FLOATLIKE
         if vs:
             opts.append((10, 'var'))
-        ls = self.lists(fn, lambda t: t.lb > 0)
+        ls = self.lists(fn, lambda t: t.lb > 0 and okk(t.elem))
         if ls:
             opts.append((4, 'index'))
-        lls = self.vars_of(fn, lambda t: isinstance(t, LL) and t.lb > 0 and t.inner_lb > 0)
+        lls = self.vars_of(fn, lambda t: isinstance(t, LL) and t.lb > 0 and t.inner_lb > 0 and okk(t.elem))
         if lls:
             opts.append((2, 'index2'))
-        tus = self.vars_of(fn, lambda t: isinstance(t, Tu))
+        tus = self.vars_of(fn, lambda t: isinstance(t, Tu) and all(okk(k) for k in t.kinds))
         if tus:
             opts.append((2, 'fst'))
         opts.append((4, 'lit'))
@@ -371,7 +448,11 @@ class Gen:
             return self._num_exact(fn, C, d)
         if d <= 0:
             return self.atom(fn, C)
-        if C.is_int:
+        if self.narrow(C):
+            # known/small-int-operator-table: nothing that dispatches on an 8/16-bit operator signature
+            self.excl('small-int-ops')
+            opts = [(12, 'atom'), (12, 'round'), (5, 'ifexp'), (2, 'len'), (2, 'call'), (2, 'cast')]
+        elif C.is_int:
             opts = [(30, 'bin'), (10, 'atom'), (4, 'neg'), (3, 'abs'), (5, 'round'), (4, 'minmax'), (3, 'ifexp'), (3, 'div'), (2, 'len'),
                     (2, 'call')]
         else:
@@ -397,12 +478,13 @@ class Gen:
             return f'(-{a})', kc
         if k == 'abs':
             if kc in ('u32', 'u64'):
-                return None          # std::abs has no unsigned overload; exercised separately
+                self.excl('small-int-ops')
+                return None          # std::abs has no unsigned overload (part of known/small-int-operator-table)
             a, _ = self.operand(fn, C, d - 1)
             return f'abs({a})', kc
         if k == 'round':
             t, kk = self.num(fn, C, d - 1)
-            if C.is_int and kk in FLOATS:
+            if C.is_int and kk in FLOATLIKE:
                 self.features.add('float-to-int-round')
             return f'fp.round({t})', kc
         if k == 'cast':
@@ -414,7 +496,21 @@ class Gen:
         if k == 'minmax':
             f = ch.choice(['min', 'max'])
             n = ch.int(2, 3)
-            args = [self.operand(fn, C, d - 1)[0] for _ in range(n)]
+            if C.is_int and 'small-int-ops' in EXCLUDE_KNOWN:
+                # integer min/max: every operand already has exactly the context's format (a variable of that kind or an
+                # operation result), never a literal or a narrower variable
+                args = []
+                same = self.scalars(fn, lambda kk: kk == kc)
+                for _ in range(n):
+                    if same and ch.bool(0.5):
+                        args.append(ch.choice(same))
+                    else:
+                        a, _ = self.operand(fn, C, max(0, d - 2))
+                        b, _ = self.operand(fn, C, 0)
+                        args.append(f'({a} {ch.choice(["+", "-", "*"])} {b})')
+                self.excl('small-int-ops')
+            else:
+                args = [self.operand(fn, C, d - 1)[0] for _ in range(n)]
             self.features.add('minmax')
             return f'{f}({", ".join(args)})', kc
         if k == 'ifexp':
@@ -466,6 +562,7 @@ class Gen:
                 return None
             l = ch.choice(ls)
             self.features.add('list-minmax')
+            self.mark_minmax(fn, l)
             return f'{ch.choice(["min", "max"])}({l})', fn.env[l].elem
         if k == 'len':
             ls = self.lists(fn)
@@ -496,6 +593,8 @@ class Gen:
         if d <= 0:
             return leaf()
         opts = [(10, 'bin'), (3, 'leaf'), (2, 'neg'), (2, 'abs'), (2, 'minmax')]
+        if 'small-int-ops' in EXCLUDE_KNOWN:
+            opts = [(10, 'bin'), (3, 'leaf'), (2, 'neg')]
         if fl:
             opts += [(3, 'fneg'), (2, 'fminmax')]
         k = ch.weighted(opts)
@@ -545,9 +644,11 @@ class Gen:
         # under INTEGER the result is an unbounded-integer value held in int64
         return f'({a} {op} {b})', (r if C.kind == 'real' else 's64' if MAGBITS[r] > 31 else r)
 
-    @staticmethod
-    def _exact_ok(r, C):
+    def _exact_ok(self, r, C):
         if r is None:
+            return False
+        if 'small-int-ops' in EXCLUDE_KNOWN and MAGBITS[r] <= 16:
+            self.excl('small-int-ops')
             return False
         return True
 
@@ -603,7 +704,7 @@ class Gen:
         self.features.add('helper-call')
         self.features.add('helper-with-own-ctx' if h.own_ctx is not None else 'helper-inherits-ctx')
         for pn, l in passed_lists:
-            if (pn in h.mutates or h.kind == 'returns-arg') and self.is_frozen(fn, l):
+            if (pn in h.mutates or h.kind == 'returns-arg') and (self.is_frozen(fn, l) or self.no_store(fn, l)):
                 return None
         for pn, l in passed_lists:
             if pn in h.mutates:
@@ -621,7 +722,8 @@ class Gen:
         return f'{h.name}({", ".join(args)})'
 
     def call_scalar(self, fn, C, d):
-        hs = self.callable_helpers(fn, C, lambda h: isinstance(h.ret, Sc))
+        hs = self.callable_helpers(fn, C, lambda h: isinstance(h.ret, Sc) and not (
+            C.is_int and 'float-to-int-range' in EXCLUDE_KNOWN and h.ret.kind in FLOATLIKE))
         if not hs:
             return None
         h = self.ch.choice(hs)
@@ -717,6 +819,19 @@ class Gen:
             k = 'alias' if ls else None
             if k is None:
                 return None
+        if self.narrow(C) and k in ('comp', 'comp-zip', 'comp-enum', 'comp-range', 'literal'):
+            # element expressions are arithmetic: none under 8/16-bit integer contexts
+            self.excl('small-int-ops')
+            k = 'alias' if ls else None
+            if k is None:
+                return None
+        cl = ls
+        if C.is_int and 'float-to-int-range' in EXCLUDE_KNOWN:
+            # a comprehension variable over a float list is an unbounded float
+            cl = [l for l in ls if fn.env[l].elem not in FLOATLIKE]
+            if k in ('comp', 'comp-zip', 'comp-enum') and not cl:
+                self.excl('float-to-int-range')
+                k = 'alias'
         if k == 'literal':
             n = ch.int(1, 4)
             elems = [self.operand(fn, C, max(0, d - 1)) for _ in range(n)]
@@ -728,7 +843,7 @@ class Gen:
             # make the element format exactly the context's format: at least one element is an operation result
             if kind != C.kind:
                 t, _ = self.operand(fn, C, 0)
-                elems[0] = (f'({t} + {self.operand(fn, C, 0)[0]})' if C.kind != 's8' else f'fp.round({t})', C.kind)
+                elems[0] = (f'({t} + {self.operand(fn, C, 0)[0]})' if C.kind not in NARROW_INTS else f'fp.round({t})', C.kind)
                 kind = C.kind
             return '[' + ', '.join(t for t, _ in elems) + ']', Li(kind, n, True)
         if k == 'alias':
@@ -758,7 +873,7 @@ class Gen:
         v = fn.fresh('e')
         self.features.add('comprehension')
         if k == 'comp':
-            l = ch.choice(ls)
+            l = ch.choice(cl)
             fn.env[v] = Sc(fn.env[l].elem)
             body, kk = self.elem_body(fn, C, d, v)
             del fn.env[v]
@@ -776,8 +891,8 @@ class Gen:
                 return f'[{body} for {v} in range(1, {n + 1})]', Li(kk, n, True)
             return f'[{body} for {v} in range(0, {2 * n}, 2)]', Li(kk, n, True)
         if k == 'comp-zip':
-            l1 = ch.choice(ls)
-            same = [l for l in ls if fn.env[l].exact and fn.env[l1].exact and fn.env[l].lb == fn.env[l1].lb]
+            l1 = ch.choice(cl)
+            same = [l for l in cl if fn.env[l].exact and fn.env[l1].exact and fn.env[l].lb == fn.env[l1].lb]
             l2 = ch.choice(same) if same else l1
             w = fn.fresh('e')
             fn.env[v] = Sc(fn.env[l1].elem)
@@ -788,7 +903,7 @@ class Gen:
             self.features.add('zip')
             return f'[{body} for {v}, {w} in zip({l1}, {l2})]', Li(kk, fn.env[l1].lb, fn.env[l1].exact)
         if k == 'comp-enum':
-            l = ch.choice(ls)
+            l = ch.choice(cl)
             w = fn.fresh('e')
             fn.env[v] = Sc('u8' if fn.env[l].exact else 's64')
             fn.env[w] = Sc(fn.env[l].elem)
@@ -872,6 +987,9 @@ class Gen:
         elif k == 'reassign' or k == 'aug':
             if C.kind in ('real', 'int'):
                 return False
+            if self.narrow(C):
+                self.excl('small-int-ops')
+                return False
             vs = [v for v in self.scalars(fn, lambda kk: kk == C.kind) if v not in fn.protected and not v.startswith(('a', 'p'))]
             if not vs:
                 return False
@@ -901,7 +1019,7 @@ class Gen:
             if not ls:
                 return False
             l = ch.choice(ls)
-            if self.is_frozen(fn, l):
+            if self.is_frozen(fn, l) or self.no_store(fn, l):
                 return False
             ek = fn.env[l].elem
             if C.kind == ek:
@@ -951,7 +1069,7 @@ class Gen:
             if not lls:
                 return False
             l = ch.choice(lls)
-            if self.is_frozen(fn, l):
+            if self.is_frozen(fn, l) or self.no_store(fn, l):
                 return False
             t0 = fn.env[l]
             ek = t0.elem
@@ -1045,7 +1163,7 @@ class Gen:
             out.append(f'{ind}if {self.boolean(fn, C, ed - 1)}:')
             snap = self.snapshot(fn)
             # a name introduced in both arms (hoisted declaration)
-            both = fn.fresh('w') if ch.bool(0.5) and C.kind not in ('int', 'real') else None
+            both = fn.fresh('w') if ch.bool(0.5) and C.kind not in ('int', 'real') and not self.narrow(C) else None
             body1 = []
             r1 = self.block(fn, C, ind + '    ', ch.int(1, 3), depth - 1, body1, in_loop, in_with)
             if both and not r1:
@@ -1124,6 +1242,9 @@ class Gen:
         elif k == 'while':
             if not (C.is_float or C.kind in ('s16', 's32', 's64', 'u16', 'u32', 'u64')):
                 return False
+            if self.narrow(C):
+                self.excl('small-int-ops')      # the counter update is an operator
+                return False
             c = fn.fresh('k')
             n = ch.int(0, 3)
             out.append(f'{ind}{c} = {n}')
@@ -1138,6 +1259,8 @@ class Gen:
             self.features.add('while')
         elif k == 'with':
             C2 = self.some_ctx(C)
+            if C2.is_int and 'float-to-int-range' in EXCLUDE_KNOWN:
+                self.emit_clamps(fn, C, C2, ind, out)
             out.append(f'{ind}with {C2.text}:')
             if in_with:
                 self.features.add('nested-with')
@@ -1160,6 +1283,35 @@ class Gen:
             return r
         return False
 
+
+    def emit_clamps(self, fn, C, K, ind, out):
+        """Before an integer block: range-clamped copies of a few float variables, the only floats the block may round
+        into its context (known/float-to-int-out-of-range-cast).  `c = (v if (LO <= v <= HI) else 0)` under binary64:
+        a NaN / infinity / out-of-range value becomes 0, everything else is kept exactly."""
+        ch = self.ch
+        fl = self.scalars(fn, lambda k: k in FLOATLIKE)
+        fl = [v for v in fl if fn.env[v].rng is None]
+        if not fl:
+            return
+        lo, hi = RANGE[K.kind]
+        if MAGBITS[K.kind] >= 63:
+            lo, hi = (0 if lo == 0 else -2**53), 2**53          # binary64 tokens exactly; far inside the 64-bit range
+        picks = []
+        for _ in range(ch.int(1, 2)):
+            v = ch.choice(fl)
+            if v not in picks:
+                picks.append(v)
+        inner = ind
+        if C.kind != 'f64':
+            out.append(f'{ind}with fp.IEEEContext(11, 64, fp.RM.RNE):')
+            inner = ind + '    '
+        for v in picks:
+            c = fn.fresh('c')
+            lo_t = '0' if lo == 0 else f'(-{-lo})'
+            out.append(f'{inner}{c} = ({v} if ({lo_t} <= {v} <= {hi}) else 0)')
+            fn.env[c] = Sc(fn.env[v].kind, rng=(lo, hi))
+            fn.protected.add(c)
+        self.features.add('clamped-float-for-int-round')
 
     def alias_call_scenario(self, fn, C, ind, out, in_with, in_loop):
         env, groups, obs, n_out, feats = dict(fn.env), dict(fn.alias_groups), list(fn.must_observe), len(out), set(self.features)
@@ -1207,7 +1359,7 @@ class Gen:
                 for _ in range(n):
                     a, _k = self.operand(fn, K, 1)
                     b, _k = self.operand(fn, K, 0)
-                    elems.append(f'({a} {ch.choice(["+", "*", "-"])} {b})' if K.kind != 's8' else f'fp.round({a})')
+                    elems.append(f'({a} {ch.choice(["+", "*", "-"])} {b})' if K.kind not in NARROW_INTS else f'fp.round({a})')
                 lines.append(f'{inner}{base} = [{", ".join(elems)}]')
                 self.bind(fn, base, Li(ek, n, True))
             shape = ch.weighted([(5, 'name'), (4, 'rows'), (2, 'both')])
@@ -1235,6 +1387,8 @@ class Gen:
                 self.features.add('nested-list')
                 if n_rows > 1:
                     self.features.add('nested-list-shared-rows')
+            if ('p0' in h.mutates or h.kind == 'returns-arg') and base in fn.env and self.no_store(fn, base):
+                return None
             call = self.call_text_with(fn, K, h, arg)
             if call is None:
                 return None
@@ -1290,6 +1444,8 @@ class Gen:
             else:
                 xss = ch.choice(cands)
                 readers = []
+            if 'p0' in h.mutates and (self.no_store(fn, xss) if xss in fn.alias_groups else False):
+                return None
             call = self.call_text_with(fn, K, h, xss)
             if call is None:
                 return None
@@ -1444,7 +1600,7 @@ class Gen:
         else:
             assumed = own
         if own is None and ch.bool(0.15):
-            assumed = Ctx(ch.choice(['s16', 's32', 'u16']))
+            assumed = Ctx(ch.choice(['s32', 'u32', 's64']))
         fn = Fn(name, False)
         params = []
         minlen = {}
@@ -1692,6 +1848,7 @@ def gen_case(ch: Chooser, shard=0, n_inputs=N_INPUTS):
             'entry_rm': top.rm,
             'inputs': [[enc_val(a) for a in args] for args in inputs],
             'features': sorted(g.features | ({'helper-also-public'} if extra else set())),
+            'excluded': dict(sorted(g.excluded.items())),
             'extra_public': extra,
         }
     raise RuntimeError('generator failed to produce a program')
